@@ -197,6 +197,11 @@ pub fn lib_clone(bytes: &[u8], seeds: &[Vec<u8>]) -> Result<Vec<u8>, String> {
 }
 
 pub fn http_clone(bytes: &[u8], script: Vec<SItem>, retries: u32) -> Result<Vec<u8>, String> {
+    http_clone_log(bytes, script, retries).0
+}
+
+/// the clone over http and every Range request the server saw
+pub fn http_clone_log(bytes: &[u8], script: Vec<SItem>, retries: u32) -> (Result<Vec<u8>, String>, Vec<(u64, u64)>) {
     let srv = ScriptServer::start(bytes.to_vec(), script);
     let url = srv.url();
     let r = std::panic::catch_unwind(move || {
@@ -206,8 +211,45 @@ pub fn http_clone(bytes: &[u8], script: Vec<SItem>, retries: u32) -> Result<Vec<
             match tokio::time::timeout(Duration::from_secs(20), clone_pipeline(reader, &[])).await { Ok(r) => r, Err(_) => Err("TIMEOUT".to_string()) }
         })
     });
-    let _ = srv.finish();
-    r.unwrap_or_else(|_| Err("PANIC".to_string()))
+    let log = srv.finish();
+    (r.unwrap_or_else(|_| Err("PANIC".to_string())), log)
+}
+
+/// Suite `httpclone` (C04, C08, C15): whole clones over http against a server that follows a script (answers,
+/// refusals, cut / short bodies, extra bytes, wrong bytes) -- result and every Range request against
+/// Model/CloneHttpModel.v
+pub fn suite_httpclone(dir: &str, seed: u64, thorough: bool, st: &mut Stats) {
+    let mut rng = Rng::new(seed ^ 0xa8);
+    let mut out = SuiteOut::new(dir, "httpclone");
+    let narch = if thorough { 60 } else { 8 };
+    let per = if thorough { 40 } else { 25 };
+    for _ in 0..narch {
+        let cfg = crate::chunking::gen_cfg(&mut rng, true);
+        let (src, _) = { let l = rng.range(0, 2500) as usize; gen_data(&mut rng, l) };
+        let c = CompressCase { cfg, hashlen: rng.range(4, 64) as usize, comp: crate::archive::gen_comp(&mut rng), meta: Default::default(), src: src.clone() };
+        let bytes = match run_create_archive(&c, 2, vec![]) { Ok(b) => b, Err(_) => continue };
+        let al = match aclone_line(&bytes) { Some(a) => a, None => continue };
+        for k in 0..per {
+            let script: Vec<SItem> = if k == 0 { vec![] } else {
+                (0..rng.range(1, 6)).map(|_| match rng.below(8) { 0 => SItem::Wrong, 1 => SItem::Short(rng.below(60) as usize), 2 => SItem::Extra(rng.range(1, 40) as usize), 3 => SItem::Cut(rng.below(80) as usize), 4 => SItem::Refuse, _ => SItem::Ok }).collect()
+            };
+            let retries = rng.below(4) as u32;
+            let (r, log) = http_clone_log(&bytes, script.clone(), retries);
+            st.evaluations += 1;
+            st.oracle_checks += 1;
+            let line = format!("httpclone {} {} {}", &al["aclone ".len()..], retries, crate::http::script_str(&script));
+            match &r {
+                Ok(got) if *got != src => st.violation("C04", "misbehaving server: clone reported success with different output", &line),
+                Err(e) if e == "PANIC" || e == "TIMEOUT" => st.violation("C15", &format!("misbehaving server: clone ended with {}", e), &line),
+                _ => {}
+            }
+            st.count(&format!("httpclone/{}/{}", if script.is_empty() { "honest" } else if script.iter().all(|i| matches!(i, SItem::Ok | SItem::Refuse | SItem::Cut(_))) { "failing-transfers" } else { "wrong-data" }, if r.is_ok() { "ok-identical" } else { "rejected" }));
+            if log.len() >= 3 { st.nontrivial_key(line.as_bytes()); }
+            if k < 2 { st.sample(format!("httpclone src={}B archive={}B retries={} script={} requests={}", src.len(), bytes.len(), retries, crate::http::script_str(&script), crate::http::log_str(&log))); }
+            out.push(&line, &format!("{} | {}", aclone_impl(&r), crate::http::log_str(&log)));
+        }
+    }
+    out.finish();
 }
 
 
